@@ -339,7 +339,7 @@ func parseFields(line string) ([]string, error) {
 
 
 func processModOption(entry *lineInfo, ltype, name, val string) error {
-	err := optErrorIf(ltype, name, "symlink", "omit")
+	err := optErrorIf(ltype, name, "symlink", "tbd", "omit")
 	if err != nil {
 		return err
 	}
@@ -357,7 +357,7 @@ func processModOption(entry *lineInfo, ltype, name, val string) error {
 
 
 func processGidUidOption(entry *lineInfo, ltype, name, val string) error {
-	err := optErrorIf(ltype, name, "symlink", "omit")
+	err := optErrorIf(ltype, name, "symlink", "tbd", "omit")
 	if err != nil {
 		return err
 	}
@@ -379,7 +379,7 @@ func processGidUidOption(entry *lineInfo, ltype, name, val string) error {
 
 
 func processSourceOption(entry *lineInfo, ltype, name, val string) error {
-	err := optErrorIf(ltype, name, "symlink", "omit")
+	err := optErrorIf(ltype, name, "symlink", "tbd", "omit")
 	if err != nil {
 		return err
 	}
@@ -395,7 +395,7 @@ func processSourceOption(entry *lineInfo, ltype, name, val string) error {
 
 
 func processDevOption(entry *lineInfo, ltype, name, val string) error {
-	err := optErrorIf(ltype, name, "file", "dir", "symlink", "omit")
+	err := optErrorIf(ltype, name, "file", "dir", "symlink", "tbd", "omit")
 	if err != nil {
 		return err
 	}
@@ -409,7 +409,7 @@ func processDevOption(entry *lineInfo, ltype, name, val string) error {
 
 
 func processTargOption(entry *lineInfo, ltype, name, val string) error {
-	err := optErrorIf(ltype, name, "file", "dir", "node", "omit")
+	err := optErrorIf(ltype, name, "file", "dir", "node", "tbd", "omit")
 	if err != nil {
 		return err
 	}
